@@ -7,6 +7,11 @@ for d in seeded/${pat}*/; do
   prop=${id%%-*}
   k=${id#*-}; suffix=""
   case "$k" in *r2) suffix=r2; k=${k%r2};; *r3) suffix=r3; k=${k%r3};; esac
-  res=$(tools/seed_eval.py "$prop" "$k" ${suffix:+--suffix $suffix} --skip-confirm --checks "$prop" 2>&1 | grep -E "^$prop exit=" | head -1)
-  case "$res" in *"exit=1"*) echo "$id CAUGHT";; *) echo "$id MISSED :: $res";; esac
+  all=$(tools/seed_eval.py "$prop" "$k" ${suffix:+--suffix $suffix} --skip-confirm --checks "$prop" 2>&1)
+  res=$(echo "$all" | grep -E "^$prop exit=" | head -1)
+  case "$res" in
+    *"exit=1"*) echo "$id CAUGHT";;
+    "") echo "$id PATCH-DOES-NOT-APPLY (re-base it on the current tree) :: $(echo "$all" | tail -1 | cut -c1-120)";;
+    *) echo "$id MISSED :: $res";;
+  esac
 done
